@@ -83,6 +83,11 @@ pub fn run_fault_case(c: &FaultCase, keep_trace: bool) -> FaultOut {
 		}
 		drop(r);
 		let w_ = interp::what(&t, c.flavour.api(c.write));
+		// the call has ended (normally or by unwinding) and owns no key any more: the thread's key is obtainable (C06)
+		if !seq::key_clean() {
+			let on = fired.first().map(|f| format!("{:?}", f.1.act).to_lowercase()).unwrap_or_else(|| "none".into());
+			rt::violation("C06", format!("key-lost-after-raw-fault|{}|fault-on-{}", rt::what_key(&w_), on), format!("after `{}` ended ({}) no key is alive on this thread, yet ThreadKey::get() returns None", w_, if panicked { "by unwinding from a raw-operation panic" } else { "normally" }));
+		}
 		if !fired.is_empty() {
 			let (_, fop) = fired[0];
 			let one_shot = matches!(c.fault, Some(FaultSpec::OneShot { .. }));
@@ -208,7 +213,7 @@ pub fn run_fault_case(c: &FaultCase, keep_trace: bool) -> FaultOut {
 			// the audit: a release the caller was not entitled to
 			let fired_kind = o.faults_fired.first().map(|f| format!("{:?}", f.1.act).to_lowercase()).unwrap_or_else(|| "none".into());
 			violations.push(Violation { prop: "C12", key: format!("bad-release-after-raw-fault|{}|fault-on-{}", v.key, fired_kind), detail: v.detail });
-		} else if v.prop == "C12" {
+		} else if v.prop == "C12" || v.prop == "C06" {
 			violations.push(v);
 		} else if o.faults_fired.is_empty() {
 			violations.push(v);
@@ -369,4 +374,45 @@ pub fn check_c12(tier: &str) -> ! {
 	rep.set("rule", "for every (shape x mode x API in {lock+drop, lock+unlock, try_lock+drop, scoped_* with lent/owned key, scoped_try_*} x pre-held pattern): one fault-free run counts the raw operations N, then N runs panic instead of raw operation k (k=0..N-1); plus persistent per-lock faults (lock / try / unlock / combinations always panic) at every member position. Oracle: the call does not return normally; no lock other than one whose own release panicked stays held by the caller; no release is issued for a lock the caller does not hold (owner-table audit); the faulted lock refuses try and panics on blocking acquisition afterwards; no other lock is killed by a one-shot fault. Non-trivial = distinct (case, faulted operation) pairs in which the fault actually fired");
 	let _ = Mode::Excl;
 	rep.finish()
+}
+
+/// C06 under raw-operation faults: whatever way a call ends, the key accounting holds (a guard consumed by an
+/// `unlock*` function whose raw release panics has dropped its key; a scoped call given an owned key has, too).
+pub fn c06_key_after_fault(rep: &mut Report) {
+	let mut specs = vec![Spec::R(0), Spec::M(0), Spec::PR(0), Spec::PM(0), Spec::OW(0), Spec::Native(Native::OwnedTupMR)];
+	for k in KINDS {
+		specs.push(Spec::Coll(k, vec![Spec::R(1), Spec::M(0)]));
+		specs.push(Spec::Pois(Box::new(Spec::Coll(k, vec![Spec::R(1), Spec::R(0)]))));
+	}
+	let infos: Vec<Option<SpecInfo>> = probe_specs(&specs);
+	let mut base = vec![];
+	for (s, info) in specs.iter().zip(&infos) {
+		let Some(info) = info else { continue };
+		for f in crate::interp::FLAVOURS {
+			for write in [true, false] {
+				if !write && !info.sharable {
+					continue;
+				}
+				base.push(FaultCase { spec: s.clone(), assign: vec![0; info.leaves.len()], flavour: f, write, fault: None, env_script: vec![], poisoned: false });
+			}
+		}
+	}
+	let base_out = par_cases(&base, |_, c| run_fault_case(c, false));
+	let mut cases = vec![];
+	for (c, o) in base.iter().zip(&base_out) {
+		for k in 0..o.raw_ops {
+			let mut fc = c.clone();
+			fc.fault = Some(FaultSpec::OneShot { index: k });
+			cases.push(fc);
+		}
+	}
+	let outs = par_cases(&cases, |_, c| run_fault_case(c, false));
+	for (c, o) in base.iter().zip(&base_out).chain(cases.iter().zip(&outs)) {
+		rep.add("key_accounting_under_raw_faults_cases", 1);
+		for v in &o.violations {
+			if v.prop == "C06" {
+				rep.violation(Viol { prop: "C06".into(), key: v.key.clone(), detail: v.detail.clone(), replay: json!({"kind": "seq-fault", "case": c}) });
+			}
+		}
+	}
 }
